@@ -88,6 +88,16 @@ async def exchange(case):
     cl = ops.Client(dev, ops.api_type(kind), case.get("device_id", "a1b2c3"), "18")
     await cl.connect()
     try:
+        # earlier operations on the same connection that went well (a client may remember something from them)
+        for j, pk in enumerate(case.get("pre", [])):
+            pa = c03.CANON_ARGS[pk]
+            cl.conn.script.clear()
+            cl.conn.script.extend(ops.good_script(pk, pa, f"5e55{j:02x}0{j + 1}", salt=20 + j))
+            st_, _ = await cl.call(pk, pa)
+            if st_ != "ok":
+                return "skip", None, [], [], None
+        cl.conn.script.clear()
+        nbefore = len(cl.conn.frames)
         script = ops.good_script(kind, a, case.get("session", "0a0b0c0d"), salt=case.get("salt", 1))
         rk = reply_kind(kind, step)
         data = apply_fault(script[step]["data"], case["fault"], rk)
@@ -111,7 +121,7 @@ async def exchange(case):
         dev.set_script(script)
         status, res = await cl.call(kind, a)
         sent = list(cl.conn.sent)
-        return status, res, list(cl.conn.frames), sent, data
+        return status, res, list(cl.conn.frames[nbefore:]), sent, data
     finally:
         await cl.close()
 
@@ -120,12 +130,14 @@ def body(rep, case, sub=None):
     kind, step, fault = case["kind"], case["step"], case["fault"]
     status, res, frames, sent, data = net.run(exchange(case))
     if status == "skip":
-        rep.label("reader-not-accessible-skipped")
+        rep.label("skipped(reader-not-accessible-or-pre-op-failed)")
         return
+    if case.get("pre"):
+        rep.label("after-earlier-successful-operations")
     transient = fault["type"] == "empty-read"
     eof = fault["type"] in ("eof", "empty-read")
     nt = (not eof) or step > 0
-    rep.tick(sub or f"{fault['type']}", key=(kind, step, fault), nontrivial=nt, sample=case,
+    rep.tick(sub or f"{fault['type']}", key=(kind, step, fault, case.get("pre")), nontrivial=nt, sample=case,
              labels=(f"fault={fault['type']}", f"step={step}", f"op={kind}"))
     ftag = f"{fault['type']}@step{step}"
     if status == "timeout":
@@ -210,6 +222,9 @@ def cases_grid(tier):
             for step in range(nsteps(kind)):
                 out.append({"kind": kind, "args": a, "step": step, "fault": {"type": "eof"}})
                 out.append({"kind": kind, "args": a, "step": step, "fault": {"type": "empty-read"}})
+                pre = ["get_state", "control_on"] if ops.api_type(kind) == 1 else ["get_shutter_state", "set_position"]
+                out.append({"kind": kind, "args": a, "step": step, "fault": {"type": "eof"}, "pre": pre[:1]})
+                out.append({"kind": kind, "args": a, "step": step, "fault": {"type": "empty-read"}, "pre": pre})
                 rk = reply_kind(kind, step)
                 n = len(script[step]["data"])
                 if tier == "thorough" or kind in STATE_QUERIES or kind in ("control_on", "stop", "breeze_command_swing", "get_schedules"):
@@ -233,8 +248,11 @@ def strat_garbage():
             st.just({"type": "empty-read"}),
             st.integers(0, 5).map(lambda i: {"type": "corrupt", "index": i}),
         )
-        return st.builds(lambda a, step, f, salt, sess: _fit({"kind": kind, "args": a, "step": step, "fault": f, "salt": salt, "session": sess}),
-                         gen.op_args(kind).map(c03._resolvable), st.integers(0, nsteps(kind) - 1), fault, st.integers(1, 100), gen.sessions)
+        same = ops.KINDS1 if ops.api_type(kind) == 1 else [k for k in ops.KINDS2]
+        pre = st.one_of(st.just([]), st.lists(st.sampled_from(same), min_size=1, max_size=3))
+        return st.builds(lambda a, step, f, salt, sess, pr: _fit(dict({"kind": kind, "args": a, "step": step, "fault": f, "salt": salt,
+                                                                    "session": sess}, **({"pre": pr} if pr else {}))),
+                         gen.op_args(kind).map(c03._resolvable), st.integers(0, nsteps(kind) - 1), fault, st.integers(1, 100), gen.sessions, pre)
     return st.sampled_from(ops.KINDS).flatmap(for_kind)
 
 
